@@ -1,4 +1,5 @@
 import PyrollModel.GrooveRep
+import PyrollModel.RollObject
 import PyrollModel.EvalDriver
 /-
   Line-protocol driver of the groove-representation model (C10).  State: environment, current polyline, grid.
@@ -7,6 +8,7 @@ import PyrollModel.EvalDriver
     contour <N>                        -> `z y z y ...` (bits)     the assembled contour polyline (N samples per arc)
     depth <z bits> ...                 -> bits ...                 translated `local_depth`
     surfx <N> set|default              -> bits ...                 translated `surface_x` grid; remembered as the grid abscissae
+    xs <x bits> ...                    -> ok <n>                   sets the grid abscissae (an explicit `surface_x`, a used roll's grid)
     pts <z y z y ...>                  -> ok <n>                   sets the current polyline (the roll's contour points)
     grid                               -> ok <rows> <cols>         builds the translated `surface_y` grid (layout handed to interpn)
     gridat <i> <j>                     -> bits                     `surface_y[j][i]` (i-th abscissa, j-th contour vertex)
@@ -15,10 +17,14 @@ import PyrollModel.EvalDriver
     spline <uw bits|_> <z y z y ...>   -> `rejected` | `<width> <usable> <depth> | z y z y ...`  (current polyline := result)
     splineown ndarray|other            -> `<a> <w>` (0/1)          a: the groove's vertex array is the caller's memory, w: the
                                                                    constructor wrote into the caller's memory
+    rollobj rest|shape|call:<name> ... -> one token per operation   a life of ONE roll object on the generated `roll_tables`:
+                                          `c:<fields>` after a change of the data + `reevaluate_cache()`, `1:<fields>` / `0:<fields>`
+                                          after a call whose answer is / is not computed from the data the roll has then;
+                                          <fields> = the non-empty private attributes, comma-separated, `-` if none
     <formula name> k=<bits> ...        -> EvalDriver (generated formula table)
 -/
 namespace GrooveRepDriver
-open GrooveRep
+open GrooveRep RollObject
 
 structure Cfg where
   useAbs : Bool
@@ -38,6 +44,7 @@ structure Cfg where
   usableDefault : LTerm
   depth : LTerm
   arrOps : List ArrOp
+  rollTables : RollTables
   table : List (String × Expr)
 
 structure St where
@@ -62,6 +69,18 @@ def showPts (l : List (Float × Float)) : String :=
 
 def showList (l : List Float) : String := " ".intercalate (l.map floatToBitsStr)
 
+def parseRollOp (t : String) : Option RollOp :=
+  if t = "rest" then some .changeRest
+  else if t = "shape" then some .changeShape
+  else if t.startsWith "call:" then some (.call (t.drop 5).toString)
+  else none
+
+def showRollStep (r : RollObj × Option (Ver × Ver)) : String :=
+  let fields := if r.1.store.isEmpty then "-" else ",".intercalate (r.1.store.map (·.1))
+  match r.2 with
+  | none => "c:" ++ fields
+  | some a => (if a.1 = a.2 then "1:" else "0:") ++ fields
+
 def handle (cfg : Cfg) (st : St) (line : String) : St × String :=
   let ρ := envOf fnan st.env
   match Proto.toks line with
@@ -83,6 +102,14 @@ def handle (cfg : Cfg) (st : St) (line : String) : St × String :=
       let pca := Expr.eval ρ (if mode = "set" then cfg.xAngleSet else cfg.xAngleDefault)
       let xs := surfaceX (setVar ρ "pca" pca) n cfg.xSpecs cfg.xOuter
       ({ st with xs := xs }, showList xs)
+    | none => (st, "bad-op")
+  | "xs" :: rest =>
+    match rest.mapM floatOfBitsStr with
+    | some xs => ({ st with xs := xs }, s!"ok {xs.length}")
+    | none => (st, "bad-op")
+  | "rollobj" :: rest =>
+    match rest.mapM parseRollOp with
+    | some ops => (st, " ".intercalate ((rollTrace cfg.rollTables {} ops).map showRollStep))
     | none => (st, "bad-op")
   | "pts" :: rest =>
     match parsePts rest with
